@@ -2,7 +2,7 @@
 import os
 
 from . import core
-from .rules import stdio, cert, mark, exact, optstore, inval, idx, atomic, own, tokens, idxclass, copy, pair, structfree, buf, div, counter, sentinel, appendinit, verdict, basismap, zerotol, escape, lenclass, djsym, ndet, useb4check, norms, opencheck, shell, esolver, errlost, rescan, certdep, neverset, fmt, defaults, scratch, fullscan, slotleak, floatidx, sensemap, trunc, vtypezero, allockind
+from .rules import stdio, cert, mark, exact, optstore, inval, idx, atomic, own, tokens, idxclass, copy, pair, structfree, buf, div, counter, sentinel, appendinit, verdict, basismap, zerotol, escape, lenclass, djsym, ndet, useb4check, norms, opencheck, shell, esolver, errlost, rescan, certdep, neverset, fmt, defaults, scratch, fullscan, slotleak, floatidx, sensemap, trunc, vtypezero, allockind, intdiv
 from .effects import Effects
 
 FIX = os.path.join(os.path.dirname(os.path.abspath(__file__)), "fixtures")
@@ -436,6 +436,7 @@ PROPS = {
                   lambda prog, tier: errlost.run(prog, scope_funcs=set(prog.reachable([prog.require_fn(r).key for r in
                                                                                      ("mpq_QSread_prob", "mpq_QSget_prob", "mpq_QSread_basis", "mpq_QSread_and_load_basis")])), floor=60),
                   lambda prog, tier: allockind.run(prog),
+                  lambda prog, tier: intdiv.run(prog),
                   lambda prog, tier: fmt.run(prog, scope=lambda f, _r=set(prog.reachable([prog.require_fn(r).key for r in
                                                                                           ("mpq_QSread_prob", "mpq_QSget_prob", "mpq_QSread_basis", "mpq_QSread_and_load_basis")])): f.key in _r, floor=200)],
         "technique": "census and classification of buffer-writing calls in the reader call-graph closures (destination array sizes from the "
@@ -544,7 +545,9 @@ PROPS = {
                        "code reads is written somewhere in the program (a field that is only read holds allocator garbage); (R-FMT) the format argument of every printf-like call "
                        "(the set of such functions is computed from the declarations) is a literal or a forwarded format parameter, "
                        "never data; (R-FLOATIDX) no array subscript depends on an int computed from a floating-point function without a "
-                       "dominating comparison of that int; (R-APPENDINIT) slots appended by the add-row / add-column paths are initialised before the "
+                       "dominating comparison of that int; (R-INTDIV) no integer division by a value that depends on a host-controlled record field "
+                       "(set computed from the public API) without a dominating test or a clamp; (R-ALLOCKIND) arrays of GMP numbers come from the "
+                       "number-array allocator; (R-APPENDINIT) slots appended by the add-row / add-column paths are initialised before the "
                        "dimension is published; (R-CNT) basis counters are bounded; (R-NDET) the reproducibility sentence: constant seeds, "
                        "no clock / pid / libc randomness outside the timing wrappers, time reaches a branch only at the documented time "
                        "limit, no relational pointer comparison across objects and no pointer-to-integer value outside the slab allocator.",
